@@ -121,6 +121,22 @@ PROPS = {
         "correspondence": "real Solver::solve (SLG, recursive; fresh and shared instances) vs Sem.evalGoal on autoProgram(data)",
         "explanation": "translation validation of solver answers by a certified checker",
     },
+    "C06": {
+        "level": "translation_validation",
+        "rule": "150 generated programs: 2-5 traits (a quarter with a parameter) with 0-2 where-clauses each (supertraits Self: Tj, bounds on the trait's own parameter; "
+                "diamonds and cycles arise), 2-3 structs, 0-3 impls (plain and conditional); 3 conclusions each posed as forall<X>{ if (hyps) {C} } and forall<X>{ C } "
+                "interleaved (with/without/with or without/with/without) on ONE solver instance and on fresh instances, both solvers; each answer judged by the certified "
+                "evaluator on impl clauses + environment clauses read off chalk's lowered Program; non-trivial = every judged answer",
+        "technique": "certified checker (Stage-A evaluator) on the Horn encoding of hypotheses/implied bounds + Lean theorems on that encoding (hypothesis_usable, implied_bound, hypotheses_scoped)",
+        "claim": "Every Unique/No-solution answer to a hypothetical goal is certified against the least fixed point in which hypotheses imply exactly the where-clauses of their traits "
+                 "(transitively) and are visible only inside their `if`; the same conclusions without the hypotheses are posed to the same solver instance right before/after, so leakage "
+                 "through caches/tables would be rejected.",
+        "note": "Trusted: Lean kernel, horn.rs (environment-clause construction), Stage-A theorems. Fragment F1: trait where-clauses of kind Implemented; struct where-clauses, associated "
+                "types and lifetimes are outside (programs with them are counted out-of-fragment). Where-clauses on a trait parameter give clauses with a body variable "
+                "absent from the head: the evaluator answers unknown there (counted inconclusive, ~15%).",
+        "correspondence": "real Solver::solve (SLG, recursive; shared and fresh instances) vs Sem.evalGoal on horn_env(program)",
+        "explanation": "translation validation of solver answers by a certified checker",
+    },
     "C13": {
         "level": "proof",
         "rule": "100 generated Horn-fragment programs (no growing-type impls: searches stay within the size limits) x 5 goals (2 closed, 3 with unknowns) x 6 (thorough 24) "
